@@ -333,6 +333,91 @@ def run_fields(chk, F):
     for f, why in (("kind", "kind"), ("value", "constant value"), ("symbol", "symbol")):
         chk.ob(rid, "equal|%s" % f, f in compared, "expression_t::equal does not compare the %s" % why,
                "%s:%s" % (eq["file"], eq["line"]))
+    # the value comparison must reach every kind whose factory stores something in `value`
+    stored = {}
+    for fn in F.functions.values():
+        if fn.get("cls") != "UTAP::expression_t" or not fn["name"].startswith("create"):
+            continue
+        sets = any(n.get("k") in ("bin", "call") and (n.get("op") == "=") and
+                   any(m.get("k") == "member" and m.get("name") == "value" and m.get("of") == ED
+                       for m in walk(n.get("lhs") or n.get("recv") or {}))
+                   for n in walk(fn["body"]))
+        if not sets:
+            continue
+        ks = set()
+        for n in walk(fn["body"]):
+            if n.get("k") == "construct" and (n.get("cls") or n.get("t") or "").endswith("expression_t") and n.get("args"):
+                a = n["args"][0]
+                if a.get("dk") == "enumerator":
+                    ks.add(a["name"])
+                elif a.get("dk") == "param":
+                    ks.add("<kind parameter>")
+        stored[fn["name"]] = ks
+    val_kinds = {k for ks in stored.values() for k in ks if not k.startswith("<")}
+    if len(val_kinds) < 3:
+        raise AnalysisBroken("factories storing a node value: %s" % stored)
+
+    def value_guard(n, guards):
+        """yield the stack of enclosing kind-switch label sets for every comparison of `value`."""
+        if isinstance(n, list):
+            for x in n:
+                yield from value_guard(x, guards)
+            return
+        if not isinstance(n, dict):
+            return
+        if n.get("k") == "member" and n.get("name") == "value" and n.get("of") == ED:
+            yield list(guards)
+            return
+        if n.get("k") == "switch":
+            labels, cur = [], []
+            groups = []
+            for st in (n.get("body") or {}).get("s", []):
+                k = st.get("k")
+                newl = []
+                while k in ("case", "default"):
+                    newl.append(st["v"].get("name") if k == "case" and isinstance(st.get("v"), dict) else "default")
+                    st = st["s"]
+                    k = st.get("k") if isinstance(st, dict) else None
+                if newl:
+                    cur = cur + newl if groups and not groups[-1][2] else newl
+                    groups.append([cur, [], False])
+                if groups and isinstance(st, dict):
+                    groups[-1][1].append(st)
+                    if k in ("break", "return"):
+                        groups[-1][2] = True
+                        cur = []
+            for labs, stmts, _ in groups:
+                yield from value_guard(stmts, guards + [("switch", tuple(labs))])
+            return
+        if n.get("k") == "if":
+            yield from value_guard(n.get("c"), guards)
+            yield from value_guard(n.get("then"), guards + [("if", short(n.get("c"))[:60])])
+            yield from value_guard(n.get("else"), guards + [("if", "!" + short(n.get("c"))[:60])])
+            return
+        for v in n.values():
+            if isinstance(v, (dict, list)):
+                yield from value_guard(v, guards)
+    uses = list(value_guard(eq["body"], []))
+    if uses:
+        covered, everything, opaque = set(), False, False
+        for g in uses:
+            if not g:
+                everything = True
+            elif all(x[0] == "switch" for x in g):
+                labs = set(g[-1][1])
+                if "default" in labs:
+                    everything = True
+                covered |= labs
+            else:
+                opaque = True
+        missing = sorted(val_kinds - covered) if not everything else []
+        if opaque and missing:
+            raise AnalysisBroken("expression_t::equal compares the value under a condition this rule cannot read")
+        chk.ob(rid, "equal|value|all-kinds", not missing,
+               "expression_t::equal compares the node value only for %s; kinds %s also store a value (factories %s), so "
+               "two such nodes that differ only in it compare equal although they print differently" %
+               (sorted(covered), missing, sorted(k for k, v in stored.items() if v & set(missing))),
+               "%s:%s" % (eq["file"], eq["line"]))
     chk.ob(rid, "equal|size", "get_size" in names, "expression_t::equal does not compare the number of children",
            "%s:%s" % (eq["file"], eq["line"]))
     loop = any(n.get("k") == "for" and any(c.get("name") == "equal" for c in calls(n["body"])) and
